@@ -156,6 +156,7 @@ func runC08(c *Ctx) {
 	layoutFlagAfterWhitespace(c, "C08.R9")
 	formatterOutputWrittenAsIs(c, "C08.R11")
 	scriptGoCodeKeepsTrailingText(c, "C08.R12")
+	branchGuardsWritten(c, "C08.R13")
 	pp := c.pkg("parser/v2")
 	gp := c.pkg("generator")
 	pinfo := pp.TypesInfo
